@@ -34,8 +34,10 @@ What is TRUE OF THE CODE MODEL (`Arnoldi.run`, exact arithmetic) and proved here
 * `…_clause_needed` — each clause excludes a genuine deviation of the code from the full
   statement, exhibited on a concrete input.
 
-NOT proved (checked by the correspondence stream only): completeness of the Ritz values at
-`s = n` (every eigenvalue of `A` is returned), `info['errors']`, floating-point orthogonality.
+* `C15_eigs_complete` — at `steps = n = dim E` every eigenvalue of `A` is an eigenvalue of that
+  matrix (spectra agree as sets; multiplicities are not treated).
+NOT proved (checked by the correspondence stream only): algebraic multiplicities of the returned
+eigenvalues, `info['errors']`, floating-point orthogonality.
 -/
 
 open scoped InnerProductSpace
@@ -196,6 +198,39 @@ theorem C15_eigs_partial (trim : Bool) (A : E →ₗ[𝕜] E) (n M : Nat) (tol :
   rw [eigsMatrix_get trim s _ l i (by rw [noPaddingEigs]; exact hl)
     (by rw [noPaddingEigs]; exact mem_range.mp hi)]
 
+/-- **`arnoldi_eigs` at full dimension is complete**: when the loop ran `n = dim E` steps (no
+clipping), every eigenpair `(μ, x)` of `A` gives the eigenpair `(μ, Qᴴ x)` of the matrix handed to
+`xnp.eig` — together with `C15_eigs_partial`: the eigenvalues of that matrix are exactly the
+eigenvalues of `A` (as a set).  Clause `noPaddingEigs` as before. -/
+theorem C15_eigs_complete [FiniteDimensional 𝕜 E] (trim : Bool) (A : E →ₗ[𝕜] E) (n M : Nat)
+    (tol : ℝ) (tolPos : 0 < tol) (v : E) (startNonzero : v ≠ 0)
+    (dimE : Module.finrank 𝕜 E = n) (hn : 0 < n) (hnM : n ≤ M)
+    (noPaddingEigs : eigsSize trim M n = n)
+    (noClip : ∀ i, i + 1 < n → tol / 2 ≤ (colAt A M tol v n).beta i)
+    (μ : 𝕜) (x : E) (hx : x ≠ 0) (heig : A x = μ • x) :
+    (∃ a, a < n ∧ ⟪(colAt A M tol v n).q a, x⟫_𝕜 ≠ 0) ∧
+    ∀ l, l < n → ∑ i ∈ range n,
+      ((eigsMatrix trim M n (colAt A M tol v n)).getD l #[]).getD i 0 * ⟪(colAt A M tol v n).q i, x⟫_𝕜 =
+        μ * ⟪(colAt A M tol v n).q l, x⟫_𝕜 := by
+  have hinv := inv_colAfter A M v tol startNonzero tolPos n hnM
+  have hcap := hinv.cap_column_zero dimE hn noClip
+  have hnc : NoClip tol n (colAt A M tol v n) := by
+    intro i hi
+    by_cases h : i + 1 < n
+    · right; exact noClip i h
+    · left
+      have : i = n - 1 := by omega
+      rw [this]; exact hcap.2
+  obtain ⟨h1, h2⟩ := ritz_complete (A := A) n hn dimE (colAt A M tol v n).q (colAt A M tol v n).h
+    (hinv.orth noClip).1
+    (fun i hi => hinv.invariant_relation tolPos hnc n hn (le_refl _) hcap.2 i hi) μ x hx heig
+  refine ⟨h1, fun l hl => ?_⟩
+  rw [← h2 l hl]
+  apply sum_congr rfl
+  intro i hi
+  rw [eigsMatrix_get trim n _ l i (by rw [noPaddingEigs]; exact hl)
+    (by rw [noPaddingEigs]; exact mem_range.mp hi)]
+
 /-- the hypotheses of `C15_eigs_partial` are satisfiable non-trivially: the trimmed variant
 (`trim = true`) always satisfies `noPaddingEigs` -/
 example (M s : Nat) : eigsSize true M s = s := rfl
@@ -222,4 +257,5 @@ theorem C15_noPaddingEigs_clause_needed :
 #print axioms C15_padding
 #print axioms C15_stopping
 #print axioms C15_eigs_partial
+#print axioms C15_eigs_complete
 #print axioms C15_noPaddingEigs_clause_needed
